@@ -313,7 +313,7 @@ pub fn run_program(program: &Program, world: &Shared, budget: u64) -> RunResult 
                                 }
                             }
                             None => {
-                                w.cur_stmt = None;
+                                w.cur_stmt = w.header_at(row, col).map(|id| (id, 0));
                             }
                         }
                     }
